@@ -38,5 +38,33 @@ def function_exists (self : StaticEnv N) (name : Str) (param_count : Nat) : FnRe
        | .none => if (param_count == 0) then .exist function.pure else .wrongArity 0 0)
   | _ => .notFound
 
+/-- `StaticEnvironment::add_variable` -/
+def add_variable (self : StaticEnv N) (name : Str) (value : Value N) : StaticEnv N :=
+  { self with vars := ins (fold name) value self.vars }
+
+/-- `StaticEnvironment::remove_variable` -/
+def remove_variable (self : StaticEnv N) (name : Str) : StaticEnv N × Option (Value N) :=
+  ({ self with vars := del (fold name) self.vars }, alGet (fold name) self.vars)
+
+/-- `StaticEnvironment::clear_variables` -/
+def clear_variables (self : StaticEnv N) : StaticEnv N :=
+  { self with vars := [] }
+
+/-- `StaticEnvironment::add_function` -/
+def add_function (self : StaticEnv N) (func : Fn N) : StaticEnv N :=
+  { self with fns := ins (fold func.name) func self.fns }
+
+/-- `StaticEnvironment::add_functions` -/
+def add_functions (self : StaticEnv N) (functions : List (Fn N)) : StaticEnv N :=
+  functions.foldl (fun self func => add_function fold self func) self
+
+/-- `StaticEnvironment::remove_function` -/
+def remove_function (self : StaticEnv N) (name : Str) : StaticEnv N × Option (Fn N) :=
+  ({ self with fns := del (fold name) self.fns }, alGet (fold name) self.fns)
+
+/-- `StaticEnvironment::list_functions` -/
+def list_functions (self : StaticEnv N) : List (Fn N) :=
+  self.fns.map (·.2)
+
 end
 end Slac.Generated.SrcEnv
